@@ -31,7 +31,7 @@ CHECKS = {
  "C11": dict(technique="TLC model checking of the blocked bit-vector algorithm (generic word width) against the column DP + TLC-computed edit-distance oracle on the real kernels' return values",
              text="Myers.tla states semi-global edit distance (fold DP) and the blocked bit-parallel algorithm generically in the word width; TLC proves them equal for every text/pattern over small alphabets at widths 2-4 incl. the cap (twin with wrong padding must fail). MyersTrace compares bpm_block, bpm and bpm_256 of the real code, builds with and without AVX2, with the TLC-computed distance on exhaustive small pairs and seeded pairs around every 64-symbol boundary and the 1024 cap.",
              note="word width 64 itself is validated by return values, not by state refinement; long inputs sampled", ref="DESIGN 5.C11"),
- "C12": dict(technique="TLC-validated relational traces (Relate!DupRows) with the containment premise evaluated by the specification",
+ "C12": dict(technique="TLC model checking of the UPGMA machine (MC_GuideTree: copies at minimal distance form a clade; twin rejected) + TLC-validated relational traces (Relate!DupRows) with the containment premise evaluated by the specification + logged guide trees compared with the machine (GuideTreeTrace)",
              text="Inputs of 2..99 sequences with planted duplicates; the spec evaluates the premise (no other sequence contains or is contained in a duplicated one on the guide-tree alphabet of Alphabet.tla) on the object as read and requires equal rows for equal sequences; cases failing the premise are skipped and counted.",
              note="sampled inputs; premise uses substring containment on class codes", ref="DESIGN 5.C12"),
  "C15": dict(technique="TLC evaluation of Writer!WellFormed on tokenised layouts of every written file (WriterTrace), line-by-line comparison with the constructive writer model, design-level round trip (MC_RoundTrip)",
@@ -49,7 +49,7 @@ CHECKS = {
  "C05": dict(technique="TLC-enumerated input files and option vectors replayed under sanitizers and valgrind; TLC validation of the outcome protocol (ProtoTrace, CliTrace), of the line-level reader model (Reader/ReaderTrace) and of alphabet totality (AlphabetTrace)",
              text="The specification decides (a) that every letter has a class in the real code tables, (b) the outcome protocol of read/run/write on every file of up to 2 lines over 27 line kinds and thousands of longer ones enumerated by TLC from FileGen.tla (success implies a well-formed object and a valid alignment of what was read; otherwise a failure status), (c) the protocol of the command line over option vectors enumerated from Cli.tla (exit 0 implies a valid alignment, failure implies non-zero exit and a message, must-fail and must-succeed classes). Memory clauses are observed on those executions by ASan, UBSan and LeakSanitizer.",
              note="memory safety is observed by sanitizers on generated executions, not decided by the model (DESIGN section 8); leaks are judged on the success path only; timeouts are confirmed at 4x", ref="DESIGN 5.C05"),
- "C07": dict(technique="TLC model checking of the fold DPs against brute force (MC_Scoring) and of the Hirschberg controller (MC_Hirschberg) + TLC-computed uniqueness certificates on planted cases (ScoringTrace) + step-by-step validation of the recursion (HirschTrace)",
+ "C07": dict(technique="TLC model checking: certificate DPs against brute force (MC_Scoring), controller (MC_Hirschberg), and C07 itself on the constructive kernel models (MC_Kernel, MC_Progressive: certified optimum returned for sequences and groups; twins rejected) + TLC-computed uniqueness certificates on planted cases (ScoringTrace) + every recorded split re-derived from the model (HirschTrace, KernelTrace, ProgressiveTrace)",
              text="Scoring.tla states kalign's affine scoring model with the end-gap charge as an interval; TLC shows the forward/backward fold DPs and the through-scores equal brute force over all alignments of tiny sequences. For every planted case TLC computes, with the parameters the kernels actually read, whether the planted alignment beats every other alignment under every admissible end-gap charge by more than the tie-break and float slack; only then kalign must return exactly that alignment (pairs and groups of 1..3 identical copies, all types, user penalties, both sides of the 500-column switch).",
              note="cases without a certificate are skipped and counted; the interval model makes certification conservative for terminal overhangs", ref="DESIGN 5.C07"),
  "C16": dict(technique="TLC enumeration of API histories with dependency chains (Api.tla) + TLC comparison of each call's result with its chain replayed in a fresh process (ApiTrace) + LeakSanitizer",
